@@ -100,7 +100,7 @@ def main():
         ok = False
         notes.append("load_context_compile_input_recent_messages_v1 not found")
     else:
-        flat = re.sub(r"\s+", "", lb)
+        flat = re.sub(r'#\[cfg\(rip_verif\)\]rip_kernel::verif::point\("[^"]*"\);', "", re.sub(r"\s+", "", lb))
         exprs = re.findall(r"letmessage_count=([^;]*);", flat)
         if len(exprs) != 1:
             ok = False
@@ -135,7 +135,8 @@ def main():
         if not cond:
             head_fixed = False
             notes.append("racing head: not found: %s" % what)
-    flat_of = lambda b: re.sub(r"\s+", "", b or "")
+    # whitespace removed; rip_verif instrumentation points are not part of the logic
+    flat_of = lambda b: re.sub(r'#\[cfg\(rip_verif\)\]rip_kernel::verif::point\("[^"]*"\);', "", re.sub(r"\s+", "", b or ""))
     hb = flat_of(fn_body0(sc, "head_seq_seen_by_messages_runs_v1"))
     need(hb == "{let(seq,in_messages_runs)=head;ifin_messages_runs&&mr_last_seq.is_none_or(|last|last<seq){seq.saturating_sub(1)}else{seq}}",
          "head_seq_seen_by_messages_runs_v1 with the body the model states")
